@@ -80,7 +80,9 @@ func (rc *RC) NewE2(o E2Opts) *E2 {
 	})
 	peerT := rc.Spawn("peer-establish", func() {
 		// wait for the SUT's header, answer with ours and an empty feature list
-		simrt.WaitUntil("peer:header", func() bool { return bytes.Contains(e.SUT.Out().Tap, []byte("version='1.0'")) && bytes.HasSuffix(e.SUT.Out().Tap, []byte(">")) })
+		simrt.WaitUntil("peer:header", func() bool {
+			return bytes.Contains(e.SUT.Out().Tap, []byte("version='1.0'")) && bytes.HasSuffix(e.SUT.Out().Tap, []byte(">"))
+		})
 		fmt.Fprintf(e.Peer, `<?xml version='1.0'?><stream:stream xmlns='%s' xmlns:stream='%s' id='sid1' from='%s' to='%s' version='1.0'><stream:features/>`, e.NS, nsStream, e.Remote, e.Local)
 	})
 	st := rc.S.Run(func() bool { return sutT.Done() && peerT.Done() }, 5000, time.Minute)
@@ -167,7 +169,7 @@ type Wire struct {
 	Trailing  []byte // whatever follows the first closing tag
 	Err       error  // syntax error, if any (position in ErrOff)
 	ErrOff    int
-	Partial   bool // input ended inside an element
+	Partial   bool   // input ended inside an element
 	TopText   string // non-whitespace character data between top-level elements
 	NumCloses int
 }
@@ -192,7 +194,8 @@ func ParseWire(b []byte) Wire {
 			}
 			// an unexpected EOF inside a tag is a truncated stream, not malformed output
 			if strings.Contains(err.Error(), "unexpected EOF") {
-				w.Partial = true
+				// the stream element itself is still open: only an element cut short counts
+				w.Partial = depth > 1 || int(d.InputOffset()) < len(bytes.TrimRight(b, " \t\r\n"))
 				return w
 			}
 			w.Err, w.ErrOff = err, off
